@@ -7,7 +7,7 @@ The Python lists `row_potential`, `col_potential`, `col_match`, `augment_path`, 
 inserted) are modelled as functions `Nat → _` with point updates `upd`; `float("inf")` is
 `none : Option Rat`.  Iteration order, strict comparisons (`<`), first-minimum tie-breaking,
 the sequential `row_potential[col_match[j]] += delta` loop, the padding with zeros and the
-`max_val - c` transformation are those of the code.  Loops carry fuel (`n + 1`); running out of
+`max_val - c` transformation are those of the code.  Loops carry fuel (`n + 2` / `n + 1`, more than the code can use); running out of
 fuel or meeting `delta = inf` (where the Python loop would not terminate) sets `stuck`.
 -/
 namespace Solvor.Assign
@@ -130,7 +130,7 @@ structure St where
 /-- one pass of `for i in range(1, n + 1)` -/
 def rowStep (A : Nat → Nat → Rat) (n : Nat) (st : St) (i : Nat) : St :=
   let p := upd st.p.get 0 i
-  let l := search A n p (n + 1)
+  let l := search A n p (n + 2)
     { u := st.u, v := st.v, way := st.way, minv := Tab.of n fun _ => none, used := Tab.of n fun _ => false,
       j0 := 0, iters := st.iters, stuck := false }
   { u := l.u, v := l.v, p := Tab.of n (augment l.way.get (n + 1) p l.j0), way := l.way, iters := l.iters,
